@@ -71,6 +71,8 @@ def _case(draw, wide=False):
                   st.integers(0, 200)).map(list),
         st.tuples(st.just('aimed'), st.sampled_from(['rm', 'reset', 'reset']),
                   st.integers(0, 200)).map(list),
+        st.tuples(st.just('worm'), st.sampled_from([0, 0, 1, 3, 10]), t, a,
+                  st.sampled_from([1, 3, 7, 15, 63, 13, 2, 12])).map(list),
         st.just(['next']),
         st.just(['reopen']),
     )
@@ -164,6 +166,23 @@ def execute(case):
                     if _prefix_sibling(s, i) or len(a['svs'][j]['vals']) > 1:
                         out.label('rm-with-prefix-sibling')
                     s.remove(run, t, i, j, k)
+            elif kind == 'worm':
+                # the command-line removal tool with wildcards; run ID 0 (the
+                # run ID of every regression) is a run ID, not a wildcard
+                _, run, t, i, fields = op
+                a = s.pool[i]
+                req = [run, t, a['task'], a['name'],
+                       a['svs'][0]['name'], a['svs'][0]['vals'][0]]
+                for n in range(6):
+                    if not (fields >> n) & 1:
+                        req[n] = None
+                if any(x is not None for x in req):
+                    gone = s.worm(req)
+                    out.label('worm')
+                    if req[0] == 0 and len({k[0] for k in s.model}) >= 1:
+                        out.nontrivial = True
+                        out.label('worm-addressed-to-run-0')
+                    del gone
             elif kind == 'reset':
                 _, run, t, i = op
                 a = s.pool[i]
